@@ -277,7 +277,7 @@ def run(chk):
             try:
                 c.a(q2, nfto)
             except Exception as e:  # noqa: BLE001
-                chk.fail(f"{tag}.no_exception", f"{type(e).__name__}: {e}", fn=fn, replay=rp_tau)
+                chk.raised(f"{tag}.no_exception", e, fn=fn, replay=rp_tau)
                 continue
             bad = []
             # group the calls by flavour patch: inside one patch they must chain and respect the tau mass
